@@ -355,12 +355,17 @@ class Run:
                 return None
         if any(v["key"] == key for v in self.violations):
             return None
+        if getattr(self, "dry", False):        # replay through the stream's history: nothing is written
+            self.violations.append({"key": key, "what": what, "replay": None, "no_input": no_input})
+            return None
         n = len(self.violations)
         os.makedirs(os.path.join(VERIF, "replays"), exist_ok=True)
         path = os.path.join("replays", f"{self.prop}-{self.seed}-{n}.json")
         replay_obj = dict(replay_obj)
         replay_obj.update({"property": self.prop, "seed": self.seed, "tier": self.tier, "key": key, "what": what,
-                           "repo": repo_state(), "replay_cmd": f"./check {self.prop} --replay {path}"})
+                           "repo": repo_state(), "replay_cmd": f"./check {self.prop} --replay {path}",
+                           "history": replay_obj.get("history") or ("the case was reached inside the check's deterministic stream for this seed and tier; if it "
+                                       "does not fail on its own, `--replay` re-runs that stream (state kept between calls)")})
         with open(os.path.join(VERIF, path), "w") as f:
             json.dump(replay_obj, f, indent=1, default=str)
         self.violations.append({"key": key, "what": what, "replay": path, "no_input": no_input})
@@ -504,7 +509,23 @@ def main(spec, argv):
             with open(os.path.join(VERIF, a.replay) if not os.path.isabs(a.replay) else a.replay) as f:
                 rp = json.load(f)
             still = spec.replay(run, rp)
-            print(("REPRODUCED " if still else "NOT-REPRODUCED ") + rp.get("key", ""))
+            how = ""
+            if not still and rp.get("key") and "seed" in rp:
+                # the failure may depend on the HISTORY of calls in the process (state kept between calls): the history is the
+                # check's own deterministic stream for the recorded seed and tier — re-run it and look for the same violation
+                run2 = Run(spec.PROP, rp.get("tier", "quick") if rp.get("tier") in ("quick", "thorough") else "quick", int(rp["seed"]))
+                run2.dry = True
+                st = proof_stage(run2, spec)
+                broken2 = list(st["broken"])
+                if st["driver_ok"]:
+                    broken2 += spec.correspond(run2) or []
+                if broken2:
+                    left = spec.search(run2, broken2)
+                    if left and rp["key"].startswith(f"{spec.PROP}:unverified:"):
+                        run2.violations.append({"key": rp["key"]})
+                still = any(v["key"] == rp["key"] for v in run2.violations)
+                how = " (through the history of the check's stream for seed %s, tier %s)" % (rp["seed"], run2.tier) if still else ""
+            print(("REPRODUCED " if still else "NOT-REPRODUCED ") + rp.get("key", "") + how)
             return 1 if still else 0
         st = proof_stage(run, spec)
         broken = st["broken"]
